@@ -267,6 +267,16 @@ impl<F: Fn(pipe::SimplexDirection, usize) + Send + Sync> DuplexPipe<F> {
         }
     }
 
+    /// the size of the flow table, observable after the pipe was moved into its task
+    #[cfg(feature = "verif")]
+    pub(crate) fn verif_flow_probe(&self) -> Box<dyn Fn() -> usize + Send + Sync>
+    where
+        F: 'static,
+    {
+        let shared = self.left_pipe.shared.clone();
+        Box::new(move || shared.udp_connections.lock().unwrap().len())
+    }
+
     async fn exchange_once(&mut self) -> io::Result<()> {
         let left = self.left_pipe.exchange();
         futures::pin_mut!(left);
